@@ -175,7 +175,15 @@ fn make_doc(root: &Path, area: &str, name: &str, seed: u64, profile: &str, hosti
 }
 
 fn make_proto_doc(root: &Path, area: &str, name: &str, seed: u64, proto3: bool) -> Doc {
-    let ps = refmodel::pb::generate(seed, proto3, 5);
+    make_proto_doc_named(root, area, name, seed, proto3, false)
+}
+
+fn make_proto_doc_named(root: &Path, area: &str, name: &str, seed: u64, proto3: bool, hostile: bool) -> Doc {
+    let mut ps = refmodel::pb::generate(seed, proto3, 5);
+    // (VERIF_PLAIN_PROTO=1: diagnosis aid, same documents with plain names)
+    if hostile && std::env::var("VERIF_PLAIN_PROTO").is_err() {
+        refmodel::pb::apply_hostile_names(&mut ps, seed);
+    }
     let dir = root.join("work").join(area).join(name);
     write_if_changed(&dir.join("idl").join("c0.proto"), &ps.render());
     let mut schema = Schema::default();
@@ -183,11 +191,21 @@ fn make_proto_doc(root: &Path, area: &str, name: &str, seed: u64, proto3: bool) 
     Doc { name: name.to_string(), schema, dir, collapse: None, raw_idl: None, proto: Some(ps) }
 }
 
-const DIRECTED_PROTO: [(&str, &str, &str); 2] = [
+const DIRECTED_PROTO: [(&str, &str, &str); 4] = [
     (
         "no_package",
         "",
         "syntax = \"proto3\";\nmessage A {\n  message B {\n    int32 x = 1;\n    enum K {\n      K0 = 0;\n      K1 = 1;\n    }\n    K k = 2;\n  }\n  B b = 1;\n  repeated B bs = 2;\n  map<string, B> m = 3;\n  oneof o {\n    B ob = 4;\n    string os = 5;\n  }\n}\nmessage C {\n  A a = 1;\n  A.B ab = 2;\n  A.B.K k = 3;\n}\n",
+    ),
+    (
+        "nocase_snake_message_with_nested",
+        "c14|proto|nocase-message-name-equals-its-module-name",
+        "syntax = \"proto3\";\npackage p0;\nmessage outer {\n  message inner {\n    int32 x = 1;\n  }\n  inner i = 1;\n}\nmessage User {\n  outer o = 1;\n  outer.inner oi = 2;\n}\n",
+    ),
+    (
+        "case_colliding_message_and_module",
+        "c14|proto|message-spelling-equals-module-of-a-case-colliding-message",
+        "syntax = \"proto3\";\npackage p0;\nmessage ID {\n  message Inner {\n    int32 x = 1;\n  }\n  Inner i = 1;\n}\nmessage id {\n  ID other = 1;\n  ID.Inner oi = 2;\n}\n",
     ),
     (
     "oneof_recursion",
@@ -274,18 +292,53 @@ fn idl_json(doc: &Doc) -> Value {
 
 fn check_batch(ctx: &Ctx, root: &Path, batch_name: &str, mods: &[(usize, usize, PathBuf)], docs: &[Doc], cfgs: &[Cfg], report: &mut Report) {
     let batch = root.join("work").join("cases").join(batch_name);
-    let mut main = String::from("#![allow(warnings)]\n");
-    for (d, c, out) in mods {
-        main.push_str(&format!("mod d{}_c{} {{\n    include!(\"{}\");\n}}\n", d, c, out.display()));
+    // one rustc process per crate: a large batch is split into member crates of one
+    // workspace so that `cargo check` uses all cores (documents stay whole: a resolution
+    // error in one document only hides the type errors of its own shard)
+    let nshards = if mods.len() > 64 { ctx.threads.max(1) } else { 1 };
+    if nshards == 1 {
+        let _ = std::fs::remove_dir_all(batch.join("shards"));
+        let mut main = String::from("#![allow(warnings)]\n");
+        for (d, c, out) in mods {
+            main.push_str(&format!("mod d{}_c{} {{\n    include!(\"{}\");\n}}\n", d, c, out.display()));
+        }
+        main.push_str("fn main() {}\n");
+        write_if_changed(&batch.join("src/main.rs"), &main);
+        write_if_changed(&batch.join("Cargo.toml"), &format!("[package]\nname = \"{}\"\nedition = \"2024\"\nversion = \"0.0.0\"\n\n[dependencies]\npilota = {{ path = \"/repo/pilota\" }}\n\n[workspace]\n", batch_name));
+    } else {
+        let _ = std::fs::remove_dir_all(batch.join("src"));
+        let mut members = vec![];
+        for k in 0..nshards {
+            let mut main = String::from("#![allow(warnings)]\n");
+            let mut any = false;
+            for (d, c, out) in mods {
+                if *d % nshards == k {
+                    main.push_str(&format!("mod d{}_c{} {{\n    include!(\"{}\");\n}}\n", d, c, out.display()));
+                    any = true;
+                }
+            }
+            if !any {
+                continue;
+            }
+            main.push_str("fn main() {}\n");
+            let dir = batch.join("shards").join(format!("s{}", k));
+            write_if_changed(&dir.join("src/main.rs"), &main);
+            write_if_changed(&dir.join("Cargo.toml"), &format!("[package]\nname = \"{}_s{}\"\nedition = \"2024\"\nversion = \"0.0.0\"\n\n[dependencies]\npilota = {{ path = \"/repo/pilota\" }}\n", batch_name, k));
+            members.push(format!("\"shards/s{}\"", k));
+        }
+        write_if_changed(&batch.join("Cargo.toml"), &format!("[workspace]\nresolver = \"3\"\nmembers = [{}]\n", members.join(", ")));
     }
-    main.push_str("fn main() {}\n");
-    write_if_changed(&batch.join("src/main.rs"), &main);
-    write_if_changed(&batch.join("Cargo.toml"), &format!("[package]\nname = \"{}\"\nedition = \"2024\"\nversion = \"0.0.0\"\n\n[dependencies]\npilota = {{ path = \"/repo/pilota\" }}\n\n[workspace]\n", batch_name));
     write_if_changed(&batch.join(".cargo/config.toml"), &format!("[net]\noffline = true\n\n[build]\ntarget-dir = \"{}/target\"\nrustflags = [\"--cfg\", \"pilota_verif\"]\n", root.display()));
     if !batch.join("Cargo.lock").exists() {
         let _ = std::fs::copy(root.join("harness/Cargo.lock"), batch.join("Cargo.lock"));
     }
-    let out = Command::new("cargo").current_dir(&batch).args(["check", "--offline", "--message-format=short", "-j", &ctx.threads.to_string()]).output();
+    // --keep-going: a member crate that fails does not stop the others
+    let mut args = vec!["check".to_string(), "--offline".into(), "--message-format=short".into(), "-j".into(), ctx.threads.to_string()];
+    if nshards > 1 {
+        args.push("--workspace".into());
+        args.push("--keep-going".into());
+    }
+    let out = Command::new("cargo").current_dir(&batch).args(&args).output();
     match out {
         Err(e) => report.frag.inconclusive(&format!("cannot run cargo check: {}", e)),
         Ok(o) => {
@@ -361,10 +414,11 @@ fn c14(ctx: &Ctx) -> i32 {
         })
         .collect();
     let mut docs = docs;
-    let nproto = ctx.scale(2, 40) as usize;
+    let nproto = ctx.scale(4, 40) as usize;
     for k in 0..nproto {
-        let seed = if k < 2 { 0xC14_9000 + k as u64 } else { ctx.seed.wrapping_mul(6007).wrapping_add(k as u64) };
-        docs.push(make_proto_doc(&root, "c14", &format!("p{}", k), seed, k % 2 == 0));
+        let seed = if k < 4 { 0xC14_9000 + k as u64 } else { ctx.seed.wrapping_mul(6007).wrapping_add(k as u64) };
+        // every other pair of documents carries hostile names (p2, p3, p6, p7, ...)
+        docs.push(make_proto_doc_named(&root, "c14", &format!("p{}", k), seed, k % 2 == 0, k % 4 >= 2));
     }
     let n_random = docs.len();
     for k in 0..DIRECTED.len() {
